@@ -63,34 +63,42 @@ impl<'a> Iterator for Params<'a> {
     type Item = ParamValue<'a>;
     fn next(&mut self) -> Option<Self::Item> {
         if self.nullmap.is_none() {
+            // NOTE: a truncated or otherwise malformed parameter block ends the iteration
+            //       (like a too-short NULL bitmap below); it must never panic.
             let nullmap_len = (self.params as usize + 7) / 8;
+            if self.input.len() < nullmap_len {
+                return None;
+            }
             let (nullmap, rest) = self.input.split_at(nullmap_len);
-            self.nullmap = Some(nullmap);
-            self.input = rest;
 
             if !rest.is_empty() && rest[0] != 0x00 {
+                if rest.len() - 1 < 2 * self.params as usize {
+                    return None;
+                }
                 let (typmap, rest) = rest[1..].split_at(2 * self.params as usize);
-                self.bound_types.clear();
+                let mut types = Vec::with_capacity(self.params as usize);
                 for i in 0..self.params as usize {
-                    self.bound_types.push((
-                        myc::constants::ColumnType::try_from(typmap[2 * i]).unwrap_or_else(|e| {
-                            panic!("bad column type 0x{:x}: {}", typmap[2 * i], e)
-                        }),
+                    types.push((
+                        myc::constants::ColumnType::try_from(typmap[2 * i]).ok()?,
                         (typmap[2 * i + 1] & 128) != 0,
                     ));
                 }
+                *self.bound_types = types;
                 self.input = rest;
             } else if !rest.is_empty() {
                 // new-params-bound flag is 0: the client re-uses the types it bound earlier; the
                 // flag byte itself still has to be skipped
                 self.input = &rest[1..];
+            } else {
+                self.input = rest;
             }
+            self.nullmap = Some(nullmap);
         }
 
         if self.col >= self.params {
             return None;
         }
-        let pt = &self.bound_types[self.col as usize];
+        let pt = *self.bound_types.get(self.col as usize)?;
 
         // https://web.archive.org/web/20170404144156/https://dev.mysql.com/doc/internals/en/null-bitmap.html
         // NULL-bitmap-byte = ((field-pos + offset) / 8)
@@ -114,7 +122,14 @@ impl<'a> Iterator for Params<'a> {
         let v = if let Some(data) = self.long_data.get(&self.col) {
             Value::bytes(&data[..])
         } else {
-            Value::parse_from(&mut self.input, pt.0, pt.1).unwrap()
+            match Value::parse_from(&mut self.input, pt.0, pt.1) {
+                Ok(v) => v,
+                Err(_) => {
+                    // truncated value: nothing sensible can follow
+                    self.col = self.params;
+                    return None;
+                }
+            }
         };
         self.col += 1;
         Some(ParamValue {
